@@ -295,6 +295,12 @@ def run(ctx):
             impl.append("ok")
         model = ctx.driver.ask(ops)
         kit.compare(res, ops, impl, model)
+    # relayed blocks must reach the peers' sockets, not only their queues
+    lines_ = chain.patch(horizon=-1)
+    keys_ = chain.Keys(rng, 4)
+    tree_ = chain.Tree(rng, keys_)
+    tree_.grow(5, fork_prob=0.2)
+    node.write_path_probe(res, rng, node.probe_messages(tree_, keys_, rng), "relay of accepted blocks")
     chain.unpatch()
     res.rule = ("one real node (LocalPeer + ChainManager + the real BlockStore on a scratch file, two greeted peers and one "
                 "not greeted, pending transactions in the pool) started from a random forked tree; sequences of %d unsolicited "
